@@ -487,8 +487,28 @@ func (env *specEnv) call(e *ast.CallExpr) SV {
 	default:
 		env.fail("unsupported call target %s", exprString(e.Fun))
 	}
-	for _, a := range e.Args {
-		args = append(args, env.eval(a))
+	var psig *types.Signature
+	if ifaceMethod != nil {
+		psig, _ = ifaceMethod.Type().(*types.Signature)
+	} else if callee != nil {
+		psig = callee.Signature
+	}
+	for i, a := range e.Args {
+		v := env.eval(a)
+		// a concrete argument for an interface parameter is boxed, as the compiler does
+		if psig != nil && i < psig.Params().Len() && !(psig.Variadic() && i >= psig.Params().Len()-1) {
+			pt, at := psig.Params().At(i).Type(), env.typeOf(a)
+			if _, isIface := pt.Underlying().(*types.Interface); isIface && at != nil && !isErrorType(pt) {
+				if _, argIface := at.Underlying().(*types.Interface); !argIface {
+					if b, isBasic := at.(*types.Basic); !isBasic || b.Kind() != types.UntypedNil {
+						if t, ok := v.(Term); ok {
+							v = x.makeInterface(t, at)
+						}
+					}
+				}
+			}
+		}
+		args = append(args, v)
 	}
 	st := env.st.clone()
 	x.pure++
